@@ -54,6 +54,55 @@ for sid in sorted(os.listdir(sd)) if os.path.isdir(sd) else []:
         k = m['property'] if own else sorted(caught)[0]
         first = esc(caught[k][0])[:160]
     out.append('| %s | %s | %s | %s | %s |' % (sid, m['property'], 'yes' if m.get('confirmed') else 'NO', ', '.join(sorted(caught)) or ('**missed**' + (' (exit 2 in %s)' % ', '.join(sorted(m.get('analysis_error') or {})) if m.get('analysis_error') else '')), first))
+out.append('')
+out.append('Seeds with suffix a/b were produced before the strengthening rounds (batches 1-5; the rules were extended until they were reported); suffix c/d is the fresh batch 6 '
+           'produced afterwards (an unbiased sample of how the rules generalise at that point; later rounds used it again).')
+out.append('')
+out.append('### A.4 Regression mutants: the reverse of every `fix:` commit (tools/regress.py)\n')
+out.append('| commit | properties | outcome | what the fix repaired |')
+out.append('|--------|------------|---------|------------------------|')
+rd = os.path.join(HERE, 'regress')
+nr = nc = 0
+for sha in sorted(os.listdir(rd)) if os.path.isdir(rd) else []:
+    mp = os.path.join(rd, sha, 'meta.json')
+    if not os.path.exists(mp):
+        continue
+    m = json.load(open(mp))
+    nr += 1
+    oc = 'stale (no longer applies)' if m.get('stale') else ('reported by ' + ', '.join(sorted(m['caught_by'])) if m.get('caught_by') else '**not reported**')
+    nc += bool(m.get('caught_by'))
+    out.append('| `%s` | %s | %s | %s |' % (sha, ', '.join(m.get('properties', [])), oc, esc(m.get('what', ''))[:140]))
+out.append('')
+out.append('%d regression mutants, %d reported.' % (nr, nc))
+out.append('')
+out.append('### A.5 Brainstormed mutants per property (mutants/<id>/)\n')
+out.append('| property | breaking mutants | reported | declined (no sound static rule) | behaviour-preserving rewrites (all silent) |')
+out.append('|----------|------------------|----------|---------------------------------|--------------------------------------------|')
+md = os.path.join(HERE, 'mutants')
+tb = tc = 0
+for pid in sorted(os.listdir(md)) if os.path.isdir(md) else []:
+    d = os.path.join(md, pid)
+    if not os.path.isdir(d):
+        continue
+    b = c = pres = 0
+    for name in sorted(os.listdir(d)):
+        mp = os.path.join(d, name, 'meta.json')
+        if not os.path.exists(mp):
+            continue
+        try:
+            m = json.load(open(mp))
+        except ValueError:
+            continue
+        if m.get('breaking'):
+            b += 1
+            c += bool(m.get('caught_by'))
+        else:
+            pres += 1
+    tb += b
+    tc += c
+    out.append('| %s | %d | %d | %d | %d |' % (pid, b, c, b - c, pres))
+out.append('')
+out.append('Total: %d breaking mutants, %d reported.' % (tb, tc))
 txt = '\n'.join(out) + '\n'
 dp = os.path.join(HERE, 'DESIGN.md')
 s = open(dp).read()
